@@ -259,3 +259,32 @@ Theorem any_attribute_prefix_refuted :
   /\ ParserCorr.outcome_eqb (Parser.parse cfg_strict conv_c05 u_mapq (Some root_mapq) pevs_mapq) (Parser.Ok o_mapq []) = false
   /\ (match Parser.parse cfg_strict conv_c05 u_mapq (Some root_mapq) pevs_mapq with Parser.Ok _ [] => true | _ => false end) = true.
 Proof. repeat split; vm_compute; reflexivity. Qed.
+
+(* ---------------------------------------------------------------- empty instances of nillable classes *)
+(* R(p=[P(x='1'), P(e=2), P()], t=T(x='2'), l=L(v=[3, 4])), classes P, T, L nillable: the empty instances P(x='1'), P(), T(x='2')
+   keep xsi:nil="true" (they have no content) and ElementNode.bind builds them from their attributes all the same
+   (`not self.xsi_nil or self.meta.nillable`); the Text field of T is set to None explicitly.  Inside the guards; the
+   REAL handler events read as the tree the events mean and are parsed back to the instance *)
+Example nil_kept_example :
+  wf_model u_nilk root_nilk = true
+  /\ fits conv_c05 u_nilk ok_c05 py_isspace 2 root_nilk o_nilk = true
+  /\ (match expected_of conv_c05 (EventGen.generate false conv_c05 u_nilk o_nilk) with
+      | Some e => reads_b true e pevs_nilk | None => false end) = true
+  /\ Parser.parse cfg_strict conv_c05 u_nilk (Some root_nilk) pevs_nilk = Parser.Ok o_nilk []
+  /\ Parser.parse cfg_strict conv_c05 u_nilk (Some root_nilk)
+       (pump (expected_of conv_c05 (EventGen.generate false conv_c05 u_nilk o_nilk))) = Parser.Ok o_nilk [].
+Proof. repeat split; vm_compute; reflexivity. Qed.
+
+(* R(l=L(v=[], x='3')), v the Text field of the nillable class L holding a token list: the element is written
+   <l x="3" xsi:nil="true"/> and under xsi:nil ElementNode.bind_text stores None: the empty list comes back as None
+   (Text variant of known finding C01-F1).  The metadata is inside wf_model; the instance is outside fits (clause
+   strict_empty: the Text field of an empty instance of a nillable class holds None); the REAL handler events read as
+   the tree the events mean, and the faithful parser model returns another instance for them *)
+Theorem nil_text_tokens_refuted :
+  wf_model u_nilk root_nilk = true
+  /\ fits conv_c05 u_nilk ok_c05 py_isspace 2 root_nilk o_nilk_tok = false
+  /\ (match expected_of conv_c05 (EventGen.generate false conv_c05 u_nilk o_nilk_tok) with
+      | Some e => reads_b true e pevs_nilk_tok | None => false end) = true
+  /\ ParserCorr.outcome_eqb (Parser.parse cfg_strict conv_c05 u_nilk (Some root_nilk) pevs_nilk_tok) (Parser.Ok o_nilk_tok []) = false
+  /\ (match Parser.parse cfg_strict conv_c05 u_nilk (Some root_nilk) pevs_nilk_tok with Parser.Ok _ [] => true | _ => false end) = true.
+Proof. repeat split; vm_compute; reflexivity. Qed.
